@@ -36,7 +36,9 @@ RULE = ('chain: random source volume (shape 1..6 per axis, 48 signed axis permut
         'with magnitudes up to the limits of the dtype (64-bit: 2^40), power-of-two class geometries, exact integer/Fraction '
         'oracle; v2vhist: 2-7 calls on ONE transformer object (and one geometry object) with different dtypes and point counts '
         '(repeated counts, integer-then-float and narrow-then-wide orders), each answer against the exact oracle and a fresh '
-        'object, object state and input arrays must not change.  Non-trivial = the call reaches the comparison of interest (not an early refusal); '
+        'object, object state and input arrays must not change; chain also draws the spelling of the target / source shape '
+        '(tuple / list / np.int64 / ndarray / ceil().astype(int)) and the memory layout of the source array; padspell: pad widths '
+        'as int / np.int64 / np.int32 / np.int16 in lists / tuples, single and pair form.  Non-trivial = the call reaches the comparison of interest (not an early refusal); '
         'distinct by (stream, ops / perturbation kind, shapes, orientation class, outcome).')
 ASSUMPTIONS = [
     'spacing = norm of an affine column and unit vector = column / norm return the factors the geometry was built from '
@@ -247,13 +249,52 @@ def full_array(arr, channels=0):
     return np.stack(planes, axis=-1)
 
 
-def make_volume(g, arr, channels=0):
+LAYOUTS = ['C', 'C', 'C', 'F', 'transposed-view', 'strided-view', 'negative-stride-view', 'read-only']
+SHAPE_SPELLINGS = ['tuple-int', 'tuple-int', 'list-int', 'tuple-np.int64', 'ndarray-int64', 'ndarray-int32', 'ceil-astype-int']
+
+
+def with_layout(a, layout):
+    """the same values in another memory layout (AGENT_GUIDE 3a)"""
+    if layout == 'F':
+        return np.asfortranarray(a)
+    if layout == 'transposed-view':
+        return np.ascontiguousarray(a.T).T
+    if layout == 'strided-view':
+        big = np.zeros((a.shape[0] * 2,) + a.shape[1:], a.dtype)
+        big[::2] = a
+        return big[::2]
+    if layout == 'negative-stride-view':
+        return np.ascontiguousarray(a[::-1])[::-1]
+    if layout == 'read-only':
+        b = a.copy()
+        b.flags.writeable = False
+        return b
+    return a
+
+
+def spell_shape(shape, spelling):
+    """the same spatial shape in another accepted spelling (AGENT_GUIDE 3a: int vs numpy int, tuple vs list vs ndarray)"""
+    ints = [int(n) for n in shape]
+    if spelling == 'list-int':
+        return ints
+    if spelling == 'tuple-np.int64':
+        return tuple(np.int64(n) for n in ints)
+    if spelling == 'ndarray-int64':
+        return np.array(ints, dtype=np.int64)
+    if spelling == 'ndarray-int32':
+        return np.array(ints, dtype=np.int32)
+    if spelling == 'ceil-astype-int':
+        return np.ceil(np.array(ints, dtype=float) - 0.25).astype(int)      # extent / spacing style computation
+    return tuple(ints)
+
+
+def make_volume(g, arr, channels=0, layout='C'):
     from highdicom.volume import Volume
     kw = {}
     if channels:
         from highdicom.volume import ChannelDescriptor
         kw['channels'] = {ChannelDescriptor('chan', is_custom=True, value_type=int): list(range(channels))}
-    return Volume(full_array(arr, channels), affine_np(g), g['cs'], frame_of_reference_uid=g['for'], **kw)
+    return Volume(with_layout(full_array(arr, channels), layout), affine_np(g), g['cs'], frame_of_reference_uid=g['for'], **kw)
 
 
 def pad_vector(full, mode, cv, per_channel):
@@ -271,9 +312,9 @@ def pad_vector(full, mode, cv, per_channel):
     return [int(np.trunc(fn(f)))] * C
 
 
-def make_geometry(g):
+def make_geometry(g, spelling='tuple-int'):
     from highdicom.volume import VolumeGeometry
-    return VolumeGeometry(affine_np(g), tuple(int(n) for n in g['shape']), g['cs'], frame_of_reference_uid=g['for'])
+    return VolumeGeometry(affine_np(g), spell_shape(g['shape'], spelling), g['cs'], frame_of_reference_uid=g['for'])
 
 
 def _call(fn, *a, **k):
@@ -422,7 +463,9 @@ def gen_chain(ctx, i):
            # with a ValueError (theorem match_tol_gt_one): compared with the model, not demanded by the oracle
            'tol': r.choice([TOL] * 10 + [F(1, 1000), F(1, 1000), F(1, 10 ** 7), F(1, 10 ** 7), F(1, 4), F(3, 2), F(4)]),
            'for_variant': r.choice(['same'] * 4 + ['tgt_none', 'src_none']),
-           'src_kind': r.choice(['volume'] * 7 + ['geometry'])}
+           'src_kind': r.choice(['volume'] * 7 + ['geometry']),
+           'layout': r.choice(LAYOUTS), 'tgt_shape_spelling': r.choice(SHAPE_SPELLINGS),
+           'src_shape_spelling': r.choice(SHAPE_SPELLINGS)}
     if opt['for_variant'] == 'tgt_none':
         tgt_g['for'] = None
     elif opt['for_variant'] == 'src_none':
@@ -431,7 +474,7 @@ def gen_chain(ctx, i):
 
 
 def run_geometry_source_case(ctx, case, src_g, tgt_g, tgt, opt, ops, reqs, pending):
-    src = make_geometry(src_g)
+    src = make_geometry(src_g, opt['src_shape_spelling'])
     st, res = _call(src.match_geometry, tgt, tol=float(opt['tol']))
     ctx.case(nontrivial_key=('chain-geom', tuple(ops), tuple(src_g['shape']), tuple(tgt_g['shape'])) if st == 'ok' else None,
              stream='chain', src_kind='geometry', chain_length=len(ops), outcome=('ok' if st == 'ok' else res))
@@ -459,12 +502,18 @@ def run_chain_case(ctx, i, reqs, pending):
     src_g, src_arr, tgt_g, tidx, ops, opt = gen_chain(ctx, i)
     case = {'stream': 'chain', 'index': i, 'seed': ctx.seed, 'ops': ops, 'src_shape': src_g['shape'],
             'tgt_shape': tgt_g['shape'], 'reachable': True, 'opt': {k: str(v) for k, v in opt.items()}}
-    tgt = make_geometry(tgt_g) if opt['tgt_kind'] == 'geometry' else make_volume(tgt_g, np.zeros(tgt_g['shape'], np.int32))
+    # a target geometry may be given its shape in any accepted spelling (numpy integers make the planned pad widths numpy
+    # integers); a target volume takes its shape from its array
+    tgt = make_geometry(tgt_g, opt['tgt_shape_spelling']) if opt['tgt_kind'] == 'geometry' \
+        else make_volume(tgt_g, np.zeros(tgt_g['shape'], np.int32))
+    ctx.hist('target_shape_spelling', (opt['tgt_shape_spelling'] if opt['tgt_kind'] == 'geometry' else 'from-array')
+             + ('/needs-pad' if 'pad' in ops else ''))
     if opt['src_kind'] == 'geometry':
         # a VolumeGeometry can be matched too (no voxels): geometry clauses only
         run_geometry_source_case(ctx, case, src_g, tgt_g, tgt, opt, ops, reqs, pending)
         return
-    src = make_volume(src_g, src_arr, opt['channels'])
+    src = make_volume(src_g, src_arr, opt['channels'], opt['layout'])
+    src_before = np.array(src.array, copy=True)
     st, res = _call(src.match_geometry, tgt, mode=opt['mode'], constant_value=CV, per_channel=opt['per_channel'],
                     tol=float(opt['tol']))
     crop_kinds = sorted({t for o in ops if o.startswith('crop:') for t in o[5:].split('+')})
@@ -472,7 +521,9 @@ def run_chain_case(ctx, i, reqs, pending):
              nontrivial_key=('chain', tuple(ops), tuple(src_g['shape']), tuple(tgt_g['shape']), src_g['exact']) if st == 'ok' else None,
              stream='chain', chain_length=len(ops), outcome=('ok' if st == 'ok' else res), orientation=('signed-perm' if src_g['exact'] else 'rotated'),
              pad_mode=opt['mode'] + ('/per_channel' if opt['per_channel'] and opt['mode'] in ('MINIMUM', 'MAXIMUM', 'MEAN', 'MEDIAN') and opt['channels'] > 1 else ''),
-             channels=opt['channels'], for_variant=opt['for_variant'], tgt_kind=opt['tgt_kind'])
+             channels=opt['channels'], for_variant=opt['for_variant'], tgt_kind=opt['tgt_kind'], array_layout=opt['layout'])
+    if not np.array_equal(np.asarray(src.array), src_before):
+        ctx.fail(case, 'match_geometry modified the array of the source volume', site='match_geometry/source-modified')
     for o in ops:
         ctx.hist('chain_ops', o.split(':')[0])
     for t in crop_kinds:
@@ -994,6 +1045,48 @@ def run_v2vdt_case(ctx, i, reqs, pending):
         pending.append(('pts', case, impl, F(0)))
 
 
+# ------------------------------------------------------------------------------------------ stream: pad widths, every accepted spelling
+def run_padspell_case(ctx, i, reqs, pending):
+    """`pad` is the operation match_geometry hands its planned widths to: nested widths as Python ints, np.int64, np.int32, in
+    lists or tuples, single or (before, after) form must all be accepted and mean the same (oracle: exact shape / position / voxels)"""
+    r = ctx.rng('padspell', i)
+    g = random_source(r)
+    N = int(np.prod(g['shape']))
+    arr = np.arange(1, N + 1, dtype=np.int32).reshape(g['shape'])
+    kind = r.choice(['geometry', 'volume'])
+    obj = make_geometry(g, r.choice(SHAPE_SPELLINGS)) if kind == 'geometry' else make_volume(g, arr, 0, r.choice(LAYOUTS))
+    form = r.choice(['pairs', 'pairs', 'singles'])
+    # (unsigned numpy widths are left out: `-np.uint8(1)` wraps in `_prepare_pad_width` on the pinned tree, reported to C08)
+    elem = r.choice(['int', 'np.int64', 'np.int64', 'np.int32', 'np.int16'])
+    cont = r.choice(['list', 'tuple'])
+    conv = {'int': int, 'np.int64': np.int64, 'np.int32': np.int32, 'np.int16': np.int16}[elem]
+    raw = [(r.choice([0, 0, 1, 2, 3]), r.choice([0, 1, 2])) for _ in range(3)]
+    if form == 'singles':
+        raw = [(b, b) for b, _ in raw]
+        pw = [[conv(b)] for b, _ in raw]
+    else:
+        pw = [[conv(b), conv(a)] for b, a in raw]
+    if cont == 'tuple':
+        pw = tuple(tuple(x) for x in pw)
+    case = {'stream': 'padspell', 'index': i, 'seed': ctx.seed, 'kind': kind, 'form': form, 'element': elem, 'container': cont,
+            'widths': raw, 'shape': g['shape']}
+    st, res = _call(obj.pad, pw) if kind == 'geometry' else _call(obj.pad, pw, mode='CONSTANT', constant_value=CV)
+    ctx.case(nontrivial_key=('padspell', kind, form, elem, cont, st), stream='padspell', pad_width_spelling=f'{form}/{elem}/{cont}',
+             outcome=('ok' if st == 'ok' else res))
+    if st != 'ok':
+        ctx.fail(case, f'pad refused widths spelled as {elem} in a {cont} ({form}): {res}', site='pad/spelling-refused')
+        return
+    want_g, _ = op_pad(g, np.zeros(g['shape'], int), raw)
+    if [int(n) for n in res.spatial_shape] != want_g['shape'] or \
+            (g['exact'] and frac_affine(res.affine) != [F(float(x)) for x in affine12(want_g)]):
+        ctx.fail(case, {'what': 'padded geometry differs from shape + widths / origin moved back by the leading widths',
+                        'shape': [int(n) for n in res.spatial_shape], 'want_shape': want_g['shape']}, site='pad/spelling-geometry')
+    if kind == 'volume':
+        want = np.pad(arr, raw, mode='constant', constant_values=CV)
+        if not np.array_equal(np.asarray(res.array), want):
+            ctx.fail(case, 'padded array differs from the source surrounded by the constant', site='pad/spelling-array')
+
+
 # ------------------------------------------------------------------------------------------ stream: histories on ONE object
 def _draw_points(r, dt, n):
     npd = np.dtype(dt)
@@ -1214,7 +1307,7 @@ def check_plan(ctx, cell, ans):
 
 # ------------------------------------------------------------------------------------------ run / replay
 STREAMS = {'chain': run_chain_case, 'perturb': run_perturb_case, 'geq': run_geq_case, 'v2v': run_v2v_case,
-           'v2vdt': run_v2vdt_case, 'v2vhist': run_v2vhist_case}
+           'v2vdt': run_v2vdt_case, 'v2vhist': run_v2vhist_case, 'padspell': run_padspell_case}
 
 
 def _resolve(ctx, reqs, pending):
@@ -1266,7 +1359,7 @@ def run(ctx, only=None):
         run_helpers(ctx, reqs, pending)
         run_slice_grid(ctx, reqs, pending)
     budget = {'chain': ctx.n(1000, 12000), 'perturb': ctx.n(800, 9000), 'geq': ctx.n(1000, 10000), 'v2v': ctx.n(500, 5000),
-              'v2vdt': ctx.n(600, 6000), 'v2vhist': ctx.n(500, 5000)}
+              'v2vdt': ctx.n(600, 6000), 'v2vhist': ctx.n(500, 5000), 'padspell': ctx.n(200, 2000)}
     for stream, fn in STREAMS.items():
         if only is not None and only[0] != stream:
             continue
